@@ -305,6 +305,10 @@ def _extract(cls, model, rec, Xd, y_pm):
     return coef, float(intercept) if np.ndim(intercept) == 0 else np.ravel(intercept)
 
 
+C16_ESTIMATORS = ("Lasso", "ElasticNet", "WeightedLasso", "GroupLasso", "MultiTaskLasso",
+                  "SparseLogisticRegression")
+
+
 def judge_fit(S, model, mid, cls, ds, Xd, yc, rec, seams, warned_nonconv, feat0, i, check, container):
     params = dict(S.args[mid])
     kind = ds["kind"]
@@ -418,6 +422,39 @@ def judge_fit(S, model, mid, cls, ds, Xd, yc, rec, seams, warned_nonconv, feat0,
         if int(n_iter) != int(seams.n_argpartition):
             S.add(["C17"], "n_iter", sig0 + ("n_iter_mismatch",),
                   dict(n_iter=int(n_iter), performed=int(seams.n_argpartition)), dict(feat0), i)
+    # ---- C16 through the estimators: at alpha >= alpha_max a converged fit - cold, or warm-started
+    # from whatever an earlier fit left on the object - has exactly zero coefficients and an
+    # optimal unpenalised part
+    if check == "C16" and "alpha" in params and claimed and not f32 and cls in C16_ESTIMATORS:
+        try:
+            base, _ = E.reference_problem(cls, dict(params, alpha=1.0), Xd, y, family=fam)
+            amax, _null = base.alpha_max()
+        except Exception:
+            amax = 0.0
+        a_ = float(params["alpha"])
+        if amax > 1e-8 and a_ >= amax * (1 + 1e-6) and pr.pen.convex \
+                and bool(np.all(pr.pen.penalized_mask(pr.p))):
+            wv_ = np.asarray(w)
+            nz_ = bool(np.any(wv_ != 0))
+            colmean = float(np.max(np.abs(pr.X.mean(axis=0)), initial=0.0))
+            l1r = float(params.get("l1_ratio", 1.0) or 1.0)
+            wts_ = np.asarray(getattr(pr.pen, "weights", [1.0]), dtype=float)
+            gap_ = (a_ - amax) * l1r * float(np.min(wts_[wts_ > 0])) if np.any(wts_ > 0) else 0.0
+            S.probe("c16_estimator_fits_above_alpha_max")
+            if nz_ and crit == "subdiff" and gap_ >= 1e3 * tol * (1 + colmean):
+                S.add(["C16"], "null_above_critical", sig0 + ("nonzero_above_alpha_max",),
+                      dict(alpha=a_, alpha_max=float(amax), tol=tol), dict(feat0, ratio=a_ / amax), i)
+            elif not nz_:
+                ccrit = crit if crit in ("subdiff", "fixpoint") else "subdiff"
+                cert_ = pr.certificate(w, b, criterion=ccrit,
+                                       curv="local" if cls == "SparseLogisticRegression" else "global")
+                bound_ = tol * (1 + REL) + cert_["allowance"] + drift
+                if cert_["value"] > bound_:
+                    S.add(["C16"], "unpenalised_part_optimal", sig0 + ("null_model_unpenalised_part_suboptimal",),
+                          dict(alpha=a_, alpha_max=float(amax), recomputed=cert_["value"],
+                               intercept_part=cert_["intercept_part"], tol=tol, intercept=np.asarray(b).tolist()),
+                          dict(feat0, ratio=a_ / amax, intercept_ratio=cert_["intercept_part"] / tol,
+                               only_intercept=bool(cert_["coef_part"] <= bound_)), i)
     rec["objective"] = float(pr.objective(w, b)) if pr.finite(w, b) else None
     rec["claimed"] = bool(claimed)
     rec["tol"] = tol
@@ -559,8 +596,9 @@ def do_path(S, op, i, base_seed, check):
     seams = Seams(None)
     feat0 = dict(cls=cls, container=container, kind=ds["kind"], path=True, engine=S.plan.get("engine"),
                  fit_intercept=bool(S.args[mid].get("fit_intercept", False)))
+    wlist = []
     try:
-        with warnings.catch_warnings(record=True):
+        with warnings.catch_warnings(record=True) as wlist:
             warnings.simplefilter("always")
             with seams.active():
                 if cls == "SqrtLasso":
@@ -613,6 +651,23 @@ def do_path(S, op, i, base_seed, check):
         if pr.pen.has_constraint and not pr.pen.feasible(w):
             S.add(["C04", "C11"], "feasible", (cls, "path_infeasible"), dict(t=t), dict(feat0), i)
         tol = info["tol"]
+        if cls == "SqrtLasso":
+            # path() returns no stopping values: a sweep that raised no convergence / small-
+            # residual warning has solved every alpha it returns, so each returned pair
+            # (alpha_t, coefs_t) must be within the witness-optimum margin *for that alpha*
+            if any(("converg" in str(w_.message).lower() or "residual" in str(w_.message).lower())
+                   for w_ in wlist) or len(alphas_out) != len(coefs):
+                continue
+            wz, bz, Pz = reference_witness(pr, hint=(w, b))
+            P = pr.objective(w, b)
+            dist = float(np.sum(np.abs(w - wz)))
+            margin = objective_margin(pr, w, b, dist, tol, "subdiff", False, Pz)
+            S.probe("sqrtlasso_path_points_judged")
+            if P > Pz + margin:
+                S.add(["C05", "C11", "C02"], "path_optimum", (cls, "path_point_above_reference_optimum"),
+                      dict(t=t, alpha=float(a), P=float(P), P_ref=float(Pz), margin=float(margin)),
+                      dict(feat0, t=t, n_alphas=len(alphas_out), gap=float(P - Pz)), i)
+            continue
         if continue_claim and stop_crits is not None and stop_crits[t] <= tol:
             crit = info["criterion"]
             cert = pr.certificate(w, b, criterion=crit)
@@ -653,6 +708,23 @@ def do_compare(S, op, i):
     if oa == "refused":
         return
     if not (ra.get("claimed") and rb.get("claimed")):
+        # One replica converges quickly, the other burns the same ample budget: the storage format
+        # changed the algorithm (the dense and the sparse kernels perform the same updates; only
+        # rounding differs).  Demanded where the budgets are the ample ones, in double precision,
+        # and the converged replica needed at most a quarter of its outer iterations.
+        a_args = S.args[op["a"]]
+        budget = (a_args.get("knobs") or a_args).get("max_iter")
+        f32_ = "f32" in (ra.get("container"), rb.get("container"))
+        if (ra.get("claimed") != rb.get("claimed")) and not f32_ and budget and budget >= 100 \
+                and "claimed" in ra and "claimed" in rb and cls not in ("SqrtLasso",):
+            conv, other = (ra, rb) if ra.get("claimed") else (rb, ra)
+            if conv.get("n_iter") is not None and 0 < int(conv["n_iter"]) <= budget // 4 \
+                    and other.get("n_iter") is not None and int(other["n_iter"]) >= budget:
+                S.probe("storage_convergence_compared")
+                S.add(["C10"], "storage_convergence", (cls, "converges_in_one_storage_only"),
+                      dict(converged=conv.get("container"), n_iter_converged=int(conv["n_iter"]),
+                           exhausted=other.get("container"), budget=int(budget)),
+                      dict(feat0, solver=(a_args.get("family") or {}).get("solver")), i)
         return
     pr = ra["problem"]
     if not pr.pen.convex:
